@@ -84,7 +84,7 @@ class Mismatch(Exception):
 
 
 _FIELDS = ("e", "queries", "swap", "cell", "ratio", "supported", "support_dis", "colors", "name", "kitty", "tsc",
-           "cached")
+           "cached", "fail")
 
 
 class St(namedtuple("St", _FIELDS)):
@@ -96,7 +96,7 @@ class St(namedtuple("St", _FIELDS)):
 
 
 def initial(env0=0):
-    return St(env0, True, False, None, 0.5, None, False, (None, None, None), None, None, None, (None, None))
+    return St(env0, True, False, None, 0.5, None, False, (None, None, None), None, None, None, (None, None), False)
 
 
 class Model:
@@ -225,6 +225,11 @@ class Model:
         elif k == "tsc":
             size = self._size(st)
             if st.tsc is None or st.tsc[1] != size:
+                if st.fail:
+                    # the body raises: the exception propagates and nothing is memoized, so the next
+                    # call has to run the body again
+                    yield st._replace(fail=False), ("raised", 1), ()
+                    return
                 e = self._env(st)
                 v = (e.cols, e.rows, e.xpx, e.ypx, e.q_area)
                 yield st._replace(tsc=(v, size)), (v, 1), ()
@@ -236,7 +241,9 @@ class Model:
             yield st._replace(tsc=None), None, ()
         elif k == "cached":
             a = op[1]
-            if st.cached[a] is None:
+            if st.cached[a] is None and st.fail:
+                yield st._replace(fail=False), ("raised", 1), ()
+            elif st.cached[a] is None:
                 v = (a, st.e)
                 c = list(st.cached)
                 c[a] = v
@@ -245,6 +252,8 @@ class Model:
                 yield st, (st.cached[a], 0), ()
         elif k == "cached_inv":
             yield st._replace(cached=(None, None)), None, ()
+        elif k == "fail_next":
+            yield st._replace(fail=True), None, ()
         else:
             raise ValueError(op)
 
@@ -281,10 +290,12 @@ class Model:
         k = op[0]
         if k in ("tsc", "cached") and preds:
             want = preds[0]
-            if obs[0] == want[0]:
-                sig["what"] = "body-ran-again" if obs[1] > want[1] else "body-did-not-run"
+            if "raised" in (obs[0], want[0]) and obs[0] != want[0]:
+                sig["how"] = "raised" if obs[0] == "raised" else "did-not-raise"
+            elif obs[0] == want[0]:
+                sig["how"] = "body-ran-again" if obs[1] > want[1] else "body-did-not-run"
             else:
-                sig["what"] = "value"
+                sig["how"] = "value"
         uniq = sorted(set(map(repr, preds)))
         raise Mismatch(self.CLAUSE.get(k, k), f"{_opname(op)} gave {obs!r}; acceptable: {', '.join(uniq)}"
                        + (f" - explained only by a memo that outlived its condition ({sig['stale']})" if tags else ""),
@@ -301,7 +312,7 @@ def _opname(op):
     names = dict(cell_size="get_cell_size()", cell_ratio="get_cell_ratio()", name="get_terminal_name_version()",
                  render="[get_fg_bg_colors(), background shown by a BlockImage render for a pixel equal to the default bg]",
                  tsc="terminal_size_cached probe", tsc_inv="probe._invalidate_terminal_size_cache()",
-                 cached_inv="probe._invalidate_cache()")
+                 cached_inv="probe._invalidate_cache()", fail_next="make the next probe body run raise")
     k = op[0]
     if k == "ratio":
         return f"set_cell_ratio({op[1]}) [raised, get_cell_ratio() afterwards]"
